@@ -190,11 +190,28 @@ func (s *Shared) attachStream(address PhysicalAddress, stream sharedStream) {
 func (s *Shared) detachStream(address PhysicalAddress) {
 	stream, loaded := s.streams.LoadAndDelete(address)
 	if loaded {
-		_ = stream.Send(&SharedMessage{
-			MessageType: &SharedMessage_Farewell{&Farewell{Address: s.rc.GetPhysicalAddress()}},
-		})
-		stream.Close()
+		s.closeStream(stream)
 	}
+}
+
+// detachStreamOf 分离并关闭指定的流：仅当该地址当前挂载的仍是这个流时才从表中移除，同一地址上更新的流不受影响
+func (s *Shared) detachStreamOf(address PhysicalAddress, stream sharedStream) {
+	if current, exist := s.streams.Load(address); exist && current == stream {
+		s.streams.Delete(address)
+	}
+	s.closeStream(stream)
+}
+
+// closeStream 关闭流并将其进程标记为已终止，使缓存了该进程的引用在下次使用时重新解析
+func (s *Shared) closeStream(stream sharedStream) {
+	if stream.IsTerminated() {
+		return
+	}
+	stream.Terminate(nil)
+	_ = stream.Send(&SharedMessage{
+		MessageType: &SharedMessage_Farewell{&Farewell{Address: s.rc.GetPhysicalAddress()}},
+	})
+	stream.Close()
 }
 
 //goland:noinspection t
@@ -242,7 +259,7 @@ func (s *Shared) streaming(address PhysicalAddress, stream sharedStream) (err er
 		hook.OnShareOpened(address)
 	}
 	defer func() {
-		s.detachStream(address)
+		s.detachStreamOf(address, stream)
 		for _, hook := range s.config.shareClosedHooks {
 			hook.OnShareClosed(address)
 		}
